@@ -27,7 +27,7 @@
 (***************************************************************************)
 EXTENDS Integers, Sequences, FiniteSets, TLC
 
-VARIABLES cfg,    \* [n, npe, maxmsg, asis, guard]     n = number of pieces
+VARIABLES cfg,    \* [n, npe, maxmsg, asis, guard, afpark]     n = number of pieces
           ts,     \* torrent state
           loop,   \* "ok" | "blocked"   (the torrent event loop)
           zomb,   \* piece downloads owned by peers that are already closed
@@ -60,7 +60,11 @@ Plain    == {"choke", "unchoke", "interested", "notinterested", "havenone", "por
 HaveK    == {"have.in0", "have.last", "have.oob", "have.max"}
 BitK     == {"bitfield.ok", "bitfield.full", "bitfield.spare", "bitfield.empty", "bitfield.short", "bitfield.long",
              "bitfield.atmax"}
-FastK    == {"allowedfast.in0", "allowedfast.oob", "allowedfast.max"}
+FastK    == {"allowedfast.in0", "allowedfast.all", "allowedfast.oob", "allowedfast.max"}
+\* allowed-fast grants (fast extension): the peer may be asked for these pieces while it chokes us
+AfGrant  == {"allowedfast.in0", "allowedfast.all"}
+\* a block of the piece that is being downloaded from the peer, if any (block 0 of piece 0 / of every piece)
+BlockK   == {"piece.unreq", "piece.alljunk"}
 ReqK     == {"request.ok", "request.len0", "request.tail", "request.ovf", "request.oob", "request.max",
              "request.lastoob"}
 CancelK  == {"cancel.ok", "cancel.oob"}
@@ -152,6 +156,7 @@ Exp(c) ==
       [] c = "have.oob" -> << M("have", cfg.n, 0, 0, 0) >>
       [] c = "have.max" -> << M("have", U32, 0, 0, 0) >>
       [] c = "allowedfast.in0" -> << M("allowedfast", 0, 0, 0, 0) >>
+      [] c = "allowedfast.all" -> [i \in 1 .. cfg.n |-> M("allowedfast", i - 1, 0, 0, 0)]
       [] c = "allowedfast.oob" -> << M("allowedfast", cfg.n, 0, 0, 0) >>
       [] c = "allowedfast.max" -> << M("allowedfast", U32, 0, 0, 0) >>
       [] c \in {"bitfield.ok", "bitfield.full", "bitfield.spare"} -> << M("bitfield", 0, 0, 0, BfLen) >>
@@ -196,7 +201,7 @@ Match(e, g) == /\ e.kind = g.kind
 \* well-formed, in range and legal in state t: the property demands that such a message is HANDLED
 Benign(t, c) ==
     \/ c \in {"keepalive"} \cup Plain \cup {"haveall", "have.in0", "have.last", "bitfield.ok", "bitfield.full",
-                                  "bitfield.empty", "allowedfast.in0", "ext.hs.ok", "ext.hs.nometa",
+                                  "bitfield.empty", "allowedfast.in0", "allowedfast.all", "ext.hs.ok", "ext.hs.nometa",
                                   "ext.meta.req0", "ext.pex.ok"}
     \/ c \in PexRepK                                  \* well-formed lists; naming an address twice is legal
     \/ (c \in PexLenK /\ PexLenOk(c))
@@ -230,8 +235,12 @@ Res(t, c) ==
 \*       fired = peer.Run has taken the timer event and is about to hand it to the loop (peerSnubbedC);
 \*       Stop/Reset of the timer by the loop cannot take that event back
 \* snub  the loop has marked the running download as snubbed (picker: piece.Snubbed)
+\* af    the peer has granted allowed-fast pieces (an AfGrant message was handled or queued)
+\* dlaf  the running download is an allowed-fast download (piecedownloader.AllowedFast): it was picked from the
+\*       granted pieces (the picker tries them first), its requests stay valid while the peer chokes us
+\* pchk  the picker's Choked mark of this peer on the piece being downloaded (piecepicker HandleChoke / HandleUnchoke)
 NewPeer == [st |-> "open", q |-> << >>, clean |-> TRUE, sync |-> TRUE, chk |-> TRUE, intr |-> FALSE,
-            has |-> FALSE, dl |-> FALSE, tm |-> "off", snub |-> FALSE]
+            has |-> FALSE, dl |-> FALSE, tm |-> "off", snub |-> FALSE, af |-> FALSE, dlaf |-> FALSE, pchk |-> FALSE]
 Gone    == [NewPeer EXCEPT !.st = "closed"]
 
 InitWith(c, st) ==
@@ -252,27 +261,47 @@ Step(k, p, c, r, a, b) == last' = [kind |-> k, pe |-> p, cls |-> c, res |-> r, a
 \*  - Choke with a running download: the download is parked, the timer is STOPPED (an event that peer.Run has already
 \*    taken stays on its way), the snubbed mark is cleared (picker.HandleChoke)
 \*  - Unchoke with a parked download: requests are sent again, the timer is armed
+\*  - allowed-fast (round 3): a peer that has granted allowed-fast pieces can be downloaded from while it chokes us; the
+\*    download is an allowed-fast download (dlaf).  Choke does NOT park it (no timer stop, no picker mark), Unchoke only
+\*    re-sends its requests.  cfg.afpark = TRUE is the variant whose Choke handler treats it like any other download
+\*    (timer stopped, picker Choked mark set) while Unchoke keeps its special case: the mark is never cleared
+\*    (MC_PeerInput_afpark exports the counterexample as a directed history for the driver).
+\*  - a block of the running download re-arms the timer while more blocks are outstanding
 Arm(tm)   == IF tm = "fired" THEN "fired" ELSE "armed"
 Disarm(tm) == IF tm = "fired" THEN "fired" ELSE "off"
 DlPart(pr, t, c) ==
     LET has2 == pr.has \/ c \in Starter
+        af2  == pr.af \/ c \in AfGrant
         chk2 == IF c = "unchoke" THEN FALSE ELSE IF c = "choke" THEN TRUE ELSE pr.chk
-    IN IF t # "down" THEN [has |-> has2, dl |-> pr.dl, tm |-> pr.tm, snub |-> pr.snub]
-       ELSE IF pr.dl /\ c = "choke" THEN [has |-> has2, dl |-> TRUE, tm |-> Disarm(pr.tm), snub |-> FALSE]
-       ELSE IF pr.dl /\ c = "unchoke" /\ pr.chk THEN [has |-> has2, dl |-> TRUE, tm |-> Arm(pr.tm), snub |-> pr.snub]
-       ELSE IF ~pr.dl /\ has2 /\ ~chk2 THEN [has |-> has2, dl |-> TRUE, tm |-> Arm(pr.tm), snub |-> FALSE]
-       ELSE [has |-> has2, dl |-> pr.dl, tm |-> pr.tm, snub |-> pr.snub]
+        keep == [has |-> has2, af |-> af2, dl |-> pr.dl, dlaf |-> pr.dlaf, tm |-> pr.tm, snub |-> pr.snub, pchk |-> pr.pchk]
+    IN IF t # "down" THEN keep
+       ELSE IF pr.dl /\ c = "choke"
+            THEN IF pr.dlaf /\ ~cfg.afpark
+                 THEN keep         \* allowed-fast download: nothing is parked, the timer keeps guarding its requests
+                 ELSE [keep EXCEPT !.tm = Disarm(pr.tm), !.snub = FALSE, !.pchk = TRUE]
+       ELSE IF pr.dl /\ c = "unchoke"
+            THEN IF pr.dlaf THEN keep      \* blocks are requested again; neither the timer nor the picker is touched
+                 ELSE IF pr.chk THEN [keep EXCEPT !.tm = Arm(pr.tm), !.pchk = FALSE]
+                 ELSE keep
+       \* a block of the running download arrives and more blocks are outstanding: requested on, the timer is armed again
+       ELSE IF pr.dl /\ c \in BlockK /\ (pr.dlaf \/ ~pr.chk) THEN [keep EXCEPT !.tm = Arm(pr.tm)]
+       \* a download starts (worst case: whenever it can; an allowed-fast grant makes it an allowed-fast download)
+       ELSE IF ~pr.dl /\ has2 /\ (~chk2 \/ af2)
+            THEN [keep EXCEPT !.dl = TRUE, !.dlaf = af2, !.tm = Arm(pr.tm), !.snub = FALSE, !.pchk = FALSE]
+       ELSE keep
 
 After(pr, t, c, r) ==
     IF r = "dropped" THEN [pr EXCEPT !.st = "closed", !.q = << >>, !.clean = FALSE,
-                                     !.has = FALSE, !.dl = FALSE, !.tm = "off", !.snub = FALSE]
+                                     !.has = FALSE, !.dl = FALSE, !.tm = "off", !.snub = FALSE,
+                                     !.af = FALSE, !.dlaf = FALSE, !.pchk = FALSE]
     ELSE LET d == DlPart(pr, t, c) IN
          [pr EXCEPT !.q = IF r = "queued" THEN Append(@, c) ELSE @,
                     !.clean = @ /\ Benign(t, c),
                     !.sync = @ /\ RV(c) # "desync",
                     !.chk = IF c = "unchoke" THEN FALSE ELSE IF c = "choke" THEN TRUE ELSE @,
                     !.intr = IF c = "interested" THEN TRUE ELSE IF c = "notinterested" THEN FALSE ELSE @,
-                    !.has = d.has, !.dl = d.dl, !.tm = d.tm, !.snub = d.snub]
+                    !.has = d.has, !.dl = d.dl, !.tm = d.tm, !.snub = d.snub,
+                    !.af = d.af, !.dlaf = d.dlaf, !.pchk = d.pchk]
 
 \* One message (class c) of peer p reaches the client.
 \* @obligation C08.dropOrHandle  the result is handled / queued / skipped / dropped - nothing else;
@@ -321,8 +350,9 @@ Ready(t2) ==
        IN /\ peer' = [p \in Peers |->
                         IF p \in open
                         THEN IF RepOf(p, t2).closed THEN Gone
-                             ELSE LET go == t2 = "down" /\ peer[p].has /\ ~peer[p].chk     \* the replay starts a download
-                                  IN [peer[p] EXCEPT !.q = << >>, !.dl = go, !.tm = IF go THEN Arm(@) ELSE @]
+                             ELSE LET go == t2 = "down" /\ peer[p].has /\ (~peer[p].chk \/ peer[p].af)   \* the replay starts a download
+                                  IN [peer[p] EXCEPT !.q = << >>, !.dl = go, !.dlaf = go /\ peer[p].af,
+                                                     !.tm = IF go THEN Arm(@) ELSE @]
                         ELSE peer[p]]
           /\ IF late = 0 THEN UNCHANGED <<loop, zomb>>
              ELSE \/ loop' = "blocked" /\ UNCHANGED zomb
@@ -342,7 +372,7 @@ Progress ==
 Complete ==
     /\ loop = "ok" /\ ts = "down" /\ ts' = "seed"
     /\ peer' = [p \in Peers |-> IF peer[p].st = "open" /\ ~peer[p].intr THEN Gone
-                              ELSE [peer[p] EXCEPT !.dl = FALSE, !.tm = Disarm(@), !.snub = FALSE]]
+                              ELSE [peer[p] EXCEPT !.dl = FALSE, !.dlaf = FALSE, !.pchk = FALSE, !.tm = Disarm(@), !.snub = FALSE]]
     /\ UNCHANGED <<cfg, loop, zomb>>
     /\ Step("complete", 0, "", "none", 0, FALSE)
 
@@ -412,9 +442,13 @@ InvAlloc == last.alloc <= AllocBound
 \* a closed peer has no queue left
 InvQueue == \A p \in Peers : peer[p].st = "closed" => peer[p].q = << >>
 \* @obligation C08.crash  the picker's consistency rule ("peer snubbed while choked" panics the client): a download is
-\* never marked snubbed while it is parked by a choke, and only a running download is marked
-InvSnub == \A p \in Peers : peer[p].snub => (peer[p].st = "open" /\ peer[p].dl /\ ~peer[p].chk)
-Inv == InvLoop /\ InvZombie /\ InvResult /\ InvBenign /\ InvAlloc /\ InvQueue /\ InvSnub
+\* never marked snubbed while it is parked by a choke (the picker's Choked mark is set), and only a running download
+\* is marked; an allowed-fast download is never parked, so it may be marked (and stay marked) while the peer chokes us
+InvSnub == \A p \in Peers : peer[p].snub => /\ peer[p].st = "open" /\ peer[p].dl /\ ~peer[p].pchk
+                                             /\ (peer[p].dlaf \/ ~peer[p].chk)
+\* the picker's Choked mark exists only for a parked (not allowed-fast) download of a peer that chokes us
+InvPark == \A p \in Peers : peer[p].pchk => (peer[p].dl /\ peer[p].chk /\ ~peer[p].dlaf)
+Inv == InvLoop /\ InvZombie /\ InvResult /\ InvBenign /\ InvAlloc /\ InvQueue /\ InvSnub /\ InvPark
 
 \* @obligation C08.isolation  a message of peer p changes nothing but p's own record
 Isolation == [][last'.kind = "recv" =>
